@@ -21,6 +21,7 @@ func checkC13(c *Ctx) {
 			{"len>=0", `^0 <= p2$`},
 			{"ell<=255", `^\(\(\(.*p2\)-1\)/.*\) <= 255$`},
 			{"len(dst)<=255", `^len\(p1\) <= 255$`},
+			{"len-bounded-above", `^p2 <= |^p2 < `},
 		})
 		// what is fed to the hash: decided on the inlined view (the writes may sit in a helper such as
 		// hashConcat(h, parts...)): every Write on the hash has its error tested, and msg, the contents
